@@ -3,12 +3,227 @@ From Coq Require Import Permutation.
 From NM Require Import Base Index IndexProofs Views.
 Local Open Scope Z_scope.
 
+(* ===================================================================== generic list facts *)
+
+Lemma nth_upd (l : list Z) : forall k x j, (k < length l)%nat ->
+  nth j (upd l k x) 0 = if Nat.eqb j k then x else nth j l 0.
+Proof.
+  induction l as [|h t IH]; intros k x j Hk; simpl in Hk; [lia|].
+  destruct k, j; simpl; auto. apply IH; lia.
+Qed.
+
+Lemma inb_nth i s : inb i s <->
+  length i = length s /\ forall k, (k < length s)%nat -> 0 <= nth k i 0 < nth k s 0.
+Proof.
+  split.
+  - induction 1 as [|x n i s Hx H [IHl IHn]]; simpl; split; auto; try lia.
+    intros [|k] Hk; [assumption | apply IHn; lia].
+  - revert s. induction i as [|x i IH]; intros [|n s] [Hl Hn]; simpl in *; try discriminate; constructor.
+    + apply (Hn O). lia.
+    + apply IH. split; [lia|]. intros k Hk. apply (Hn (S k)). lia.
+Qed.
+
+Lemma pos_nth s : pos s <-> forall k, (k < length s)%nat -> 1 <= nth k s 0.
+Proof.
+  unfold pos. rewrite Forall_forall. split.
+  - intros H k Hk. apply H. now apply nth_In.
+  - intros H x Hx. apply (In_nth _ _ 0) in Hx as [k [Hk <-]]. now apply H.
+Qed.
+
+Lemma map_seq_nth_ext (f : nat -> Z) (l : list Z) n :
+  length l = n -> (forall k, (k < n)%nat -> nth k l 0 = f k) -> l = map f (seq 0 n).
+Proof.
+  intros Hl H. apply nth_ext with (d := 0) (d' := f O).
+  - now rewrite map_length, seq_length.
+  - intros k Hk. rewrite Hl in Hk. rewrite (map_nth f), seq_nth by lia. now apply H.
+Qed.
+
+Lemma nth_map_seq (f : nat -> Z) n k : (k < n)%nat -> nth k (map f (seq 0 n)) 0 = f k.
+Proof.
+  intros Hk. rewrite (nth_indep _ 0 (f O)) by now rewrite map_length, seq_length.
+  now rewrite (map_nth f), seq_nth.
+Qed.
+
+Lemma nth_zs n k : (k < n)%nat -> nth k (zs n) 0 = Z.of_nat k.
+Proof.
+  intros Hk. unfold zs. rewrite (nth_indep _ 0 (Z.of_nat O)) by now rewrite map_length, seq_length.
+  now rewrite (map_nth Z.of_nat), seq_nth.
+Qed.
+
 Lemma reverse_eq_rev l : reverse l = rev l.
 Proof.
-  unfold reverse. apply nth_ext with (d := 0) (d' := 0).
-  - now rewrite map_length, seq_length, rev_length.
-  - intros k Hk. rewrite map_length, seq_length in Hk.
-    rewrite (nth_indep _ 0 (nth (length l - 1 - 0) l 0)) by (rewrite map_length, seq_length; lia).
-    rewrite (map_nth (fun i => nth (length l - 1 - i) l 0)), seq_nth by lia.
-    rewrite rev_nth by lia. f_equal. lia.
+  unfold reverse. symmetry. apply map_seq_nth_ext.
+  - apply rev_length.
+  - intros k Hk. rewrite rev_nth by lia. f_equal. lia.
+Qed.
+
+(* ===================================================================== reshape *)
+
+Definition count_m1 (dst : list Z) : nat := length (filter (fun d => d =? -1) dst).
+
+Lemma length_known dst : (length dst - length (np_known dst))%nat = count_m1 dst
+  /\ (length (np_known dst) <= length dst)%nat.
+Proof.
+  unfold np_known, count_m1. induction dst as [|d t [IH1 IH2]]; simpl; [split; reflexivity|].
+  destruct (d =? -1); simpl; split; lia.
+Qed.
+
+Lemma cnr_fold dst : forall c n,
+  fst (fold_left (fun (st : Z * Z) d => if d =? -1 then (fst st + 1, snd st) else (fst st, wrap 64 (snd st * wrap 64 d))) dst (c, n))
+  = c + Z.of_nat (count_m1 dst).
+Proof.
+  unfold count_m1. induction dst as [|d t IH]; intros c n; simpl; [lia|].
+  destruct (d =? -1); simpl; rewrite IH; simpl; lia.
+Qed.
+
+Lemma cnr_fold_snd dst : forall c n, 1 <= n -> pos (np_known dst) -> n * prod (np_known dst) < 2 ^ 64 ->
+  snd (fold_left (fun (st : Z * Z) d => if d =? -1 then (fst st + 1, snd st) else (fst st, wrap 64 (snd st * wrap 64 d))) dst (c, n))
+  = n * prod (np_known dst).
+Proof.
+  unfold np_known. induction dst as [|d t IH]; intros c n Hn Hp Hb; simpl in *; [lia|].
+  destruct (d =? -1) eqn:E; simpl in *.
+  - apply IH; assumption.
+  - inversion Hp as [|? ? Hd Hp']; subst. pose proof (prod_pos _ Hp') as HP.
+    set (K := prod (filter (fun d0 => negb (d0 =? -1)) t)) in *.
+    assert (Hd64 : 0 <= d < 2 ^ 64) by nia.
+    rewrite (wrap_small 64 d) by assumption.
+    assert (Hnd : 0 <= n * d < 2 ^ 64) by nia.
+    rewrite wrap_small by assumption.
+    rewrite IH; [ring | nia | assumption | ].
+    replace (n * d * K) with (n * (d * K)) by ring. assumption.
+Qed.
+
+Lemma known_all_of_count0 dst : count_m1 dst = O ->
+  np_known dst = dst /\ forall q, map (fun d => if d =? -1 then q else d) dst = dst.
+Proof.
+  unfold count_m1, np_known. induction dst as [|d t IH]; simpl; intros H; [split; reflexivity|].
+  destruct (d =? -1) eqn:E; simpl in *; [discriminate|].
+  destruct (IH H) as [I1 I2]. split; [now rewrite I1 | intros q; now rewrite I2].
+Qed.
+
+Lemma prod_replace_count1 dst q : count_m1 dst = 1%nat ->
+  prod (map (fun d => if d =? -1 then q else d) dst) = q * prod (np_known dst).
+Proof.
+  unfold count_m1, np_known. induction dst as [|d t IH]; simpl; intros H; [discriminate|].
+  destruct (d =? -1) eqn:E; simpl in *.
+  - injection H as H. destruct (known_all_of_count0 t H) as [I1 I2].
+    unfold np_known in I1. now rewrite I1, I2.
+  - rewrite IH by assumption. ring.
+Qed.
+
+Lemma pos_replace dst q : pos (np_known dst) -> 1 <= q -> pos (map (fun d => if d =? -1 then q else d) dst).
+Proof.
+  unfold np_known, pos. induction dst as [|d t IH]; simpl; intros Hp Hq; [constructor|].
+  destruct (d =? -1) eqn:E; simpl in *.
+  - constructor; auto.
+  - inversion Hp; subst. constructor; auto.
+Qed.
+
+Lemma forallb_pos l : forallb (fun d => 1 <=? d) l = true <-> pos l.
+Proof. exact (posb_pos l). Qed.
+
+(* what NumPy accepts has positive extents and the same element count *)
+Lemma np_reshape_shape_sound src dst d : pos src ->
+  np_reshape_shape src dst = Some d -> pos d /\ prod d = prod src /\ length d = length dst.
+Proof.
+  intros Hs. unfold np_reshape_shape.
+  destruct (forallb (fun d0 => 1 <=? d0) (np_known dst)) eqn:F; [|discriminate].
+  apply forallb_pos in F. destruct (length_known dst) as [-> _].
+  destruct (count_m1 dst) as [|[|c]] eqn:C; try discriminate.
+  - destruct (prod dst =? prod src) eqn:E; [|discriminate]. intros H; injection H as <-.
+    destruct (known_all_of_count0 dst C) as [K _]. rewrite K in F. split; [assumption | split; [lia | reflexivity]].
+  - destruct (prod src mod prod (np_known dst) =? 0) eqn:E; [|discriminate]. intros H; injection H as <-.
+    pose proof (prod_pos _ Hs) as HS. pose proof (prod_pos _ F) as HK.
+    assert (Hm : prod src mod prod (np_known dst) = 0) by lia.
+    apply Z.div_exact in Hm; [|lia].
+    assert (Hq : 1 <= prod src / prod (np_known dst)) by nia.
+    split; [now apply pos_replace | split; [| now rewrite map_length]].
+    rewrite prod_replace_count1 by assumption. lia.
+Qed.
+
+(* shape_reshape accepts exactly what NumPy accepts, with NumPy's shape *)
+Lemma shape_reshape_np src dst : pos src -> prod src < 2 ^ 64 -> dst <> [] ->
+  prod (np_known dst) < 2 ^ 64 -> shape_reshape src dst = np_reshape_shape src dst.
+Proof.
+  intros Hs Hb Hne Hkb. unfold shape_reshape, np_reshape_shape, count_negative_reshape.
+  rewrite cnr_fold, Z.add_0_l. destruct (length_known dst) as [-> _].
+  rewrite (product_w_no_wrap 64 src Hs Hb).
+  destruct (forallb (fun d => 1 <=? d) (np_known dst)) eqn:F.
+  - assert (HX : existsb (fun d => negb (d =? -1) && (d <? 1)) dst = false).
+    { apply Bool.not_true_is_false. intros HX. apply existsb_exists in HX as [x [Hx Hc]].
+      apply andb_prop in Hc as [Hc1 Hc2].
+      assert (Hin : In x (np_known dst)) by (unfold np_known; apply filter_In; auto).
+      rewrite forallb_forall in F. specialize (F x Hin). lia. }
+    rewrite HX. apply forallb_pos in F. pose proof (prod_pos _ F) as HK.
+    destruct dst as [|d0 t]; [congruence|].
+    rewrite cnr_fold_snd by (auto; lia). rewrite Z.mul_1_l.
+    set (K := prod (np_known (d0 :: t))) in *.
+    pose proof (prod_pos _ Hs) as HS.
+    destruct (count_m1 (d0 :: t)) as [|[|c]] eqn:C.
+    + cbn [Z.of_nat]. replace (1 <? 0) with false by reflexivity.
+      replace (K =? 0) with false by lia. cbn [Z.eqb andb].
+      destruct (known_all_of_count0 _ C) as [K1 K2]. unfold K. rewrite K1, K2.
+      rewrite (Z.eqb_sym (prod (d0 :: t))).
+      destruct (prod src =? prod (d0 :: t)) eqn:E; cbn [negb]; [|reflexivity].
+      apply Z.eqb_eq in E. rewrite E, Z.mod_same by (rewrite <- E; lia). reflexivity.
+    + replace (1 <? Z.of_nat 1) with false by reflexivity. replace (K =? 0) with false by lia.
+      replace (Z.of_nat 1 =? 0) with false by reflexivity. cbn [andb].
+      destruct (prod src mod K =? 0); reflexivity.
+    + replace (1 <? Z.of_nat (S (S c))) with true by lia. reflexivity.
+  - assert (HX : 1 <? Z.of_nat (count_m1 dst) = true \/ existsb (fun d => negb (d =? -1) && (d <? 1)) dst = true).
+    { right. apply existsb_exists.
+      assert (HF : ~ (forall x, In x (np_known dst) -> (1 <=? x) = true)) by (rewrite <- forallb_forall; congruence).
+      destruct (existsb (fun d => negb (1 <=? d)) (np_known dst)) eqn:Ex.
+      - apply existsb_exists in Ex as [x [Hx Hc]]. unfold np_known in Hx. apply filter_In in Hx as [Hx1 Hx2].
+        exists x. split; [assumption|]. rewrite Hx2. simpl. lia.
+      - exfalso. apply HF. intros x Hx. destruct (1 <=? x) eqn:E; [reflexivity|].
+        assert (existsb (fun d => negb (1 <=? d)) (np_known dst) = true) by (apply existsb_exists; exists x; rewrite E; auto).
+        congruence. }
+    destruct (1 <? Z.of_nat (count_m1 dst)); [reflexivity|]. destruct HX as [HX|HX]; [discriminate|]. now rewrite HX.
+Qed.
+
+(* reshape/flatten keep the C order: the source index the view reads has the same
+   row-major rank as the result index, and it lies inside the source *)
+Lemma reshape_index_spec src d i : pos src -> pos d -> prod d = prod src -> inb i d ->
+  inb (reshape_index src d i) src
+  /\ compute_offset (reshape_index src d i) (compute_strides src) = compute_offset i (compute_strides d)
+  /\ compute_offset i (compute_strides d) = np_reshape_rank d i.
+Proof.
+  intros Hs Hd Hp Hi. unfold reshape_index, np_reshape_rank.
+  pose proof (off_bound _ _ Hi) as Hb.
+  assert (E : compute_offset i (compute_strides d) = off i (strides d)) by now rewrite compute_offset_eq, compute_strides_eq.
+  split; [now apply unrav_inb|]. split.
+  - apply off_unrav; [assumption|]. rewrite E. lia.
+  - rewrite E, horner_off by assumption. lia.
+Qed.
+
+Lemma reshape_inb dst src d i : pos src -> prod src < 2 ^ 64 -> dst <> [] -> prod (np_known dst) < 2 ^ 64 ->
+  reshape_accept dst src = Some d -> inb i d -> inb (reshape_index src d i) src.
+Proof.
+  intros Hs Hb Hne Hk Ha Hi. unfold reshape_accept in Ha. rewrite shape_reshape_np in Ha by assumption.
+  destruct (np_reshape_shape_sound _ _ _ Hs Ha) as [Hd [Hp _]].
+  now apply reshape_index_spec.
+Qed.
+
+Lemma flatten_accept_eq src : pos src -> prod src < 2 ^ 64 -> flatten_accept src = Some [prod src].
+Proof.
+  intros Hs Hb. unfold flatten_accept. rewrite (product_w_no_wrap 64 src Hs Hb).
+  pose proof (prod_pos _ Hs) as HP.
+  assert (E : (prod src =? -1) = false) by lia.
+  rewrite shape_reshape_np; try assumption; try discriminate.
+  - unfold np_reshape_shape, np_known. simpl. rewrite E. simpl.
+    replace (1 <=? prod src) with true by lia. simpl.
+    replace (prod src * 1 =? prod src) with true by lia. reflexivity.
+  - unfold np_known. simpl. rewrite E. simpl. lia.
+Qed.
+
+(* composition of two reshapes back to the original shape is the identity on indices *)
+Lemma reshape_roundtrip s d i : pos s -> pos d -> prod d = prod s -> inb i s ->
+  reshape_index s d (reshape_index d s i) = i.
+Proof.
+  intros Hs Hd Hp Hi. unfold reshape_index.
+  pose proof (off_bound _ _ Hi) as Hb.
+  assert (E : compute_offset i (compute_strides s) = off i (strides s)) by now rewrite compute_offset_eq, compute_strides_eq.
+  rewrite off_unrav by (auto; rewrite E; lia).
+  now apply unrav_off.
 Qed.
